@@ -14,3 +14,28 @@ def build():
     lib = C.build_lib()
     return S.build_mixed("h_rbconc", [("h_rbconc.c", S.TSAN_FLAGS), ("sched_rt.c", S.PLAIN_FLAGS),
                                       ("sched_wrap_rb.c", S.PLAIN_FLAGS)], lib=lib, ldflags=WRAPS)
+
+
+# ------------------------------------------------------------------ running a batch on both sides
+def cleanup_shm(tag):
+    for p in glob.glob("/dev/shm/vrbc-%s-*" % tag):
+        try:
+            os.unlink(p)
+        except OSError:
+            pass
+
+
+def execute(cases, exe, model, tag=None):
+    """cases: list of lists of script lines.  Returns (impl results, model results) as run_cases gives them."""
+    tag = tag or ("p%d" % os.getpid())
+    texts = ["\n".join(c) + "\n" for c in cases]
+    try:
+        impl = C.run_cases(exe, texts, timeout=900, env={"RBCONC_TAG": tag})
+    finally:
+        cleanup_shm(tag)
+    mcases = []
+    for c, (lines, crash) in zip(cases, impl):
+        follow = [l for l in lines if l.startswith("s ") or l.startswith("end ")]
+        mcases.append("\n".join([l for l in c if not l.startswith("run")] + follow) + "\n")
+    mod = C.run_cases(model, mcases, timeout=900)
+    return impl, mod
